@@ -207,6 +207,28 @@ pub fn run_server(t: u32, epoch: &str, msgs: &[Message], threads: usize) -> Opti
   res.ok()
 }
 
+/// ONE server object serving several batches one after the other (a long-lived aggregator that is
+/// polled repeatedly); every batch in its own pool. `None` = that call panicked
+pub fn run_server_history(t: u32, epoch: &str, batches: &[Vec<Message>], threads: usize) -> Vec<Option<Canon>> {
+  let srv = AggregationServer::new(t, epoch);
+  batches
+    .iter()
+    .map(|msgs| {
+      let pool = rayon::ThreadPoolBuilder::new().num_threads(threads).build().unwrap();
+      std::panic::catch_unwind(std::panic::AssertUnwindSafe(|| {
+        pool.install(|| {
+          srv
+            .retrieve_outputs(msgs)
+            .into_iter()
+            .map(|o| (o.x.as_vec(), o.aux.iter().map(|a| a.as_ref().map(|d| d.as_vec())).collect::<Vec<_>>()))
+            .collect::<Canon>()
+        })
+      }))
+      .ok()
+    })
+    .collect()
+}
+
 pub fn render(outs: &Canon) -> String {
   if outs.is_empty() {
     return "ok -".into();
@@ -273,6 +295,33 @@ pub fn agg(tier: &str, seed: u64) {
     // same multiset, other order, other pool
     g.shuffle(&mut msgs);
     emit_agg(t, &epoch, &msgs, g.range(1, 16) as usize, "honest_reordered");
+    // HISTORY: one server object polled with three batches - everything, then a batch in which each
+    // measurement is cut down to fewer reports (many now below the threshold), then everything
+    // again; the model is stateless, so each answer must be the one for that batch alone
+    {
+      let mut seen: std::collections::HashMap<Vec<u8>, usize> = Default::default();
+      let cut: Vec<Message> = msgs
+        .iter()
+        .filter(|m| {
+          let c = seen.entry(m.tag.clone()).or_insert(0);
+          *c += 1;
+          *c < t as usize || (*c == t as usize && m.tag[0] & 1 == 1)
+        })
+        .cloned()
+        .collect();
+      let batches = vec![msgs.clone(), cut, msgs.clone()];
+      let outs = run_server_history(t, &epoch, &batches, threads);
+      for (b, o) in batches.iter().zip(outs) {
+        let ans = match o {
+          Some(o) => render(&o),
+          None => "panic".into(),
+        };
+        let wire: Vec<Vec<u8>> = b.iter().map(|m| m.to_bytes()).collect();
+        let req = format!("agg.run {} {} {}", t, hex(epoch.as_bytes()), hexlist(&wire));
+        emit(req.trim_end(), &ans);
+        stat("agg.server_reused_across_batches");
+      }
+    }
     // server threshold above the clients'
     emit_agg(t + 1 + g.below(3) as u32, &epoch, &msgs, threads, "server_threshold_above");
     // malformed multisets
